@@ -4,7 +4,7 @@
                             calculateOutputScalar, calculateLastValueBlinder, write-back, SanityCheck
      pset/blinder.go        unblindInputsToIssuanceBlindingData, blindOutputs,
                             generateOutputBlindingFactors, createBlindedOutputs (per-output arrays and
-                            the write-back indexed by output index), blindInputs
+                            the positional write-back), blindInputs
      confidential/*.go      CalculateScalarOffset, SubtractScalars, ComputeAndAddToScalarOffset,
                             FinalValueBlindingFactor (libsecp blind_generator_blind_sum), and which
                             tag lists BlindOutputs / validateBlindingArgs hand to the surjection proofs
@@ -242,13 +242,13 @@ Fixpoint bl_output_sum (p : bl_pset) (args : list bl_outarg) (s : option bytes) 
       end
   end.
 
-(* calculateOutputScalar.  fixp = false is the code as it is (a non-last blinder returns the sum over
-   its outputs and drops its input scalar); fixp = true is the proposed repair. *)
-Definition bl_output_scalar (fixp : bool) (p : bl_pset) (inS : option bytes) (args : list bl_outarg) (last : bool)
+(* calculateOutputScalar: every blinder, last or not, subtracts its input scalar from the sum over its
+   outputs (the lastBlinder argument is no longer consulted; /repo db58bba) *)
+Definition bl_output_scalar (p : bl_pset) (inS : option bytes) (args : list bl_outarg) (last : bool)
   : option (option bytes) :=
   match bl_output_sum p args None with
   | None => None
-  | Some s => if negb last && negb fixp then Some s else bl_sub s inS
+  | Some s => bl_sub s inS
   end.
 
 (* calculateLastValueBlinder *)
@@ -290,7 +290,7 @@ Fixpoint bl_write_outs (outs : list bl_pout) (args : list bl_outarg) (last : boo
 Record bl_step_out := bmk_step { bso_pset : bl_pset; bso_scalar : option bytes; bso_lastvbf : option bytes }.
 
 (* Blinder.blind *)
-Definition bl_blind (fixp : bool) (p : bl_pset) (owned : list bl_owned) (iss : list bl_issarg)
+Definition bl_blind (p : bl_pset) (owned : list bl_owned) (iss : list bl_issarg)
   (args0 : list bl_outarg) (last vok : bool) : bres bl_step_out :=
   if bl_is_fully_blinded p then BOk (bmk_step p None None) else
   if negb (forallb (bl_issarg_ok p) iss) then BErr else
@@ -300,7 +300,7 @@ Definition bl_blind (fixp : bool) (p : bl_pset) (owned : list bl_owned) (iss : l
   match bl_input_scalar p iss owned None with
   | None => BErr
   | Some inS =>
-      match bl_output_scalar fixp p inS args last with
+      match bl_output_scalar p inS args last with
       | None => BErr
       | Some outS =>
           match rev args with
@@ -324,18 +324,18 @@ Record bl_party := bmk_party {
   bpa_genok : bool; bpa_vok : bool;
   bpa_owned : list bl_owned; bpa_iss : list bl_issarg; bpa_outs : list bl_outarg }.
 
-Definition bl_party_step (fixp : bool) (p : bl_pset) (pa : bl_party) (last : bool) : bres bl_step_out :=
+Definition bl_party_step (p : bl_pset) (pa : bl_party) (last : bool) : bres bl_step_out :=
   if negb (bl_new_blinder p (bpa_owned pa)) then BErr
-  else bl_blind fixp p (bpa_owned pa) (bpa_iss pa) (bpa_outs pa) last (bpa_vok pa).
+  else bl_blind p (bpa_owned pa) (bpa_iss pa) (bpa_outs pa) last (bpa_vok pa).
 
 (* the whole exchange: every party but the final one calls BlindNonLast *)
-Fixpoint bl_run (fixp : bool) (p : bl_pset) (ps : list bl_party) : bres bl_pset :=
+Fixpoint bl_run (p : bl_pset) (ps : list bl_party) : bres bl_pset :=
   match ps with
   | [] => BOk p
   | pa :: rest =>
       let last := match rest with [] => true | _ => false end in
-      match bl_party_step fixp p pa last with
-      | BOk s => bl_run fixp (bso_pset s) rest
+      match bl_party_step p pa last with
+      | BOk s => bl_run (bso_pset s) rest
       | BErr => BErr
       | BPanic => BPanic
       end
@@ -510,32 +510,19 @@ Fixpoint b0_zip3 (a : list Z) (b c : list bytes) : list (Z * bytes * bytes) :=
   | _, _, _ => []
   end.
 
-(* the write-back loop of createBlindedOutputs: arrays indexed by OUTPUT index *)
+(* the write-back loop of createBlindedOutputs: it walks the sorted selection (outputs with an empty
+   script already filtered out by the caller) with a position counter into the result arrays
+   (/repo 65fe84b) *)
 Fixpoint b0_writeback (sel : list N) (arr : list (bytes * bytes)) (outs : list (option (bytes * bytes)))
   : bres (list (option (bytes * bytes))) :=
-  match sel with
-  | [] => BOk outs
-  | idx :: rest =>
-      match bl_nth outs idx with
-      | None => BPanic                                   (* Outputs[outputIndex] *)
-      | Some _ =>
-          match bl_nth arr idx with
-          | None => BPanic                               (* assetCommitments[outputIndex] *)
-          | Some x => b0_writeback rest arr (bl_upd outs (N.to_nat idx) (Some x))
-          end
-      end
-  end.
-
-(* the repaired write-back: arrays indexed by position in the sorted selection *)
-Fixpoint b0_writeback_fixed (sel : list N) (arr : list (bytes * bytes)) (outs : list (option (bytes * bytes)))
-  : bres (list (option (bytes * bytes))) :=
   match sel, arr with
+  | [], _ => BOk outs
+  | _ :: _, [] => BPanic                                 (* assetCommitments[pos] *)
   | idx :: rest, x :: arr' =>
       match bl_nth outs idx with
-      | None => BPanic
-      | Some _ => b0_writeback_fixed rest arr' (bl_upd outs (N.to_nat idx) (Some x))
+      | None => BPanic                                   (* Outputs[outputIndex] *)
+      | Some _ => b0_writeback rest arr' (bl_upd outs (N.to_nat idx) (Some x))
       end
-  | _, _ => BOk outs
   end.
 
 Fixpoint b0_iss_open (keys : bool) (k : N) (ins : list b0_in) (ps : list b0_ent) : list (option bytes * option bytes) :=
@@ -549,8 +536,8 @@ Fixpoint b0_iss_open (keys : bool) (k : N) (ins : list b0_in) (ps : list b0_ent)
   end.
 
 (* Blinder.Blind.  sel = keys of blindingPubKeyByOutputIndex; keys = issuance blinding keys given;
-   sok = every surjection proof could be generated; fixq selects the repaired write-back *)
-Definition b0_blind (fixq : bool) (ins : list b0_in) (outs : list b0_out) (sel : list N) (keys sok : bool)
+   sok = every surjection proof could be generated *)
+Definition b0_blind (ins : list b0_in) (outs : list b0_out) (sel : list N) (keys sok : bool)
   (rng : list bytes) : bres b0_result :=
   match b0_pseudo keys 0%N ins rng with
   | None => BErr
@@ -578,8 +565,7 @@ Definition b0_blind (fixq : bool) (ins : list b0_in) (outs : list b0_out) (sel :
                       let arr := map (fun t => (snd (fst t), snd t)) (b0_zip3 outV abfs vbfs') in
                       let arr' := firstn (length chosen) arr in
                       let start := map (fun _ => None) outs in
-                      match (if fixq then b0_writeback_fixed (filter (fun i => match bl_nth outs i with Some o => negb (bo0_noscript o) | None => false end) ssel) arr' start
-                             else b0_writeback ssel arr' start) with
+                      match b0_writeback (filter (fun i => match bl_nth outs i with Some o => negb (bo0_noscript o) | None => false end) ssel) arr' start with
                       | BPanic => BPanic
                       | BErr => BErr
                       | BOk w => BOk (bmk_b0res w (b0_iss_open keys 0%N ins pseudo))
